@@ -132,39 +132,52 @@ def strategy_rebalance(chk, pid):
     trades = [e for e in S.events if e.kind == "call" and e.name in ("allocate", "transact") and e.recv is not None and e.recv[0] == "sub"]
     chk.need(trades, "%s no longer trades the child" % host)
     seen = {"mv": 0, "fi": 0}
-    for e in trades:
-        g = G(e)
-        is_fi = sym.lit_holds(g, fi_atom, True)
-        not_fi = sym.lit_holds(g, fi_atom, False)
+    zw_atom = ("zero", sym._abs_norm(sym.to_rat(weight)))
+    # decided per scenario (own accounting mode x child's mode), whatever the branch structure is
+    scenarios = [("mv", False, None)] if pid == "C06" else ([("fi", True, True), ("fi", True, False)] if pid == "C17" else [])
+    for mode, self_fi, child_fi in scenarios:
+        matching = []
+        for e in trades:
+            c = e.recv
+            sc = [(canon(fi_atom), self_fi), (zw_atom, False)]
+            if child_fi is not None:
+                sc.append((canon(("fld", c, "_fixed_income", 0)), child_fi))
+            g = sym.sat(tuple(G(e)) + tuple(sc))
+            if not sym.inconsistent(g):
+                matching.append((e, g))
+        want_call = "transact" if child_fi else "allocate"
+        label = "mv" if mode == "mv" else "fi:%s" % want_call
+        rule = "C06.R4" if mode == "mv" else "C17.R5"
+        if len(matching) != 1:
+            chk.ob(rule, False, CORE, host, "delta:%s" % label, "exactly one trade of the child happens in each accounting mode", where=fi.where,
+                   expected="one allocate/transact call", found="%d calls" % len(matching))
+            continue
+        e, g = matching[0]
+        seen[mode] += 1
         c = e.recv
         ok_child = c[1][0] == "fld" and c[1][2] == "children" and canon(c[2]) == canon(child)
         amt = e.args[0] if e.args else None
-        b_eff = sym.restrict(cur(e, SELF, "__base__") if False else _base_value(S, e), g)
-        if not_fi and pid == "C06":
-            seen["mv"] += 1
-            exp = ("-", ("*", weight, b_eff), ("*", ("fld", c, R.WEIGHT, 0), fld(SELF, R.VALUE)))
-            ok = amt is not None and e.name == "allocate" and sym.equal(strip_versions(sym.restrict(amt, g)), strip_versions(exp))
-            chk.ob("C06.R4", ok and ok_child, CORE, host, "delta:mv", "the child receives target holding minus current holding: weight x base - child weight x strategy value",
-                   where=e.where, expected=short(exp, 200), found=short(amt, 200) if amt else "?", sample={"delta": short(amt, 160) if amt else None})
-        if is_fi and pid == "C17":
-            seen["fi"] += 1
-            exp = ("-", ("*", weight, b_eff), ("*", ("fld", c, R.WEIGHT, 0), fld(SELF, R.NOTIONAL)))
-            child_fi = sym.lit_holds(g, ("fld", c, "_fixed_income", 0), True)
-            want_call = "transact" if child_fi else "allocate"
-            ok = amt is not None and e.name == want_call and sym.equal(strip_versions(sym.restrict(amt, g)), strip_versions(exp))
-            chk.ob("C17.R5", ok and ok_child, CORE, host, "delta:fi:%s" % want_call,
+        b_eff = sym.restrict(_base_value(S, e), g)
+        own = fld(SELF, R.VALUE) if mode == "mv" else fld(SELF, R.NOTIONAL)
+        exp = ("-", ("*", weight, b_eff), ("*", ("fld", c, R.WEIGHT, 0), own))
+        ok = amt is not None and e.name == want_call and sym.equal(strip_versions(sym.restrict(amt, g)), strip_versions(exp))
+        if mode == "mv":
+            chk.ob(rule, ok and ok_child, CORE, host, "delta:mv", "the child receives target holding minus current holding: weight x base - child weight x strategy value",
+                   where=e.where, expected=short(exp, 200), found=(e.name + " " + short(sym.restrict(amt, g), 200)) if amt else "?", sample={"delta": short(amt, 160) if amt else None})
+        else:
+            chk.ob(rule, ok and ok_child, CORE, host, "delta:%s" % label,
                    "in a fixed-income strategy the child receives weight x base - child weight x strategy notional (as notional for fixed-income children, as capital otherwise)",
-                   where=e.where, expected=short(exp, 200), found=short(amt, 200) if amt else "?", sample={"delta": short(amt, 160) if amt else None})
-        if (not_fi and pid == "C06") or (is_fi and pid == "C17"):
-            # current weight / value are read through the refreshing accessors
-            reads = [p for p in S.events if p.kind == "propread" and p.seq < e.seq and ((p.obj == c and p.name == "weight") or (p.obj == SELF and p.name in ("value", "notional_value")))]
-            names = set(p.name for p in reads)
-            ok = "weight" in names and (("value" in names) if not_fi else ("notional_value" in names))
-            chk.ob("C06.R4" if not_fi else "C17.R5", ok, CORE, host, "delta-reads-fresh:%s" % ("mv" if not_fi else "fi"),
-                   "the current weight and the strategy's current value are read through the refreshing accessors", where=e.where, found=", ".join(sorted(names)))
-            u = bound_args(e, chk.prog).get("update")
-            chk.ob("C06.R4" if not_fi else "C17.R5", u is not None and canon(u) == canon(("param", "update")), CORE, host, "delta-update-flag:%s" % e.name,
-                   "the caller's update flag is passed on", where=e.where)
+                   where=e.where, expected=want_call + " " + short(exp, 200), found=(e.name + " " + short(sym.restrict(amt, g), 200)) if amt else "?", sample={"delta": short(amt, 160) if amt else None})
+        # current weight / value are read through the refreshing accessors
+        reads = [p for p in S.events if p.kind == "propread" and p.seq < e.seq and not sym.inconsistent(sym.sat(tuple(g) + tuple(plain(p.guard))))
+                 and ((p.obj == c and p.name == "weight") or (p.obj == SELF and p.name in ("value", "notional_value")))]
+        names = set(p.name for p in reads)
+        ok = "weight" in names and (("value" in names) if mode == "mv" else ("notional_value" in names))
+        chk.ob(rule, ok, CORE, host, "delta-reads-fresh:%s" % mode,
+               "the current weight and the strategy's current value are read through the refreshing accessors", where=e.where, found=", ".join(sorted(names)))
+        u = bound_args(e, chk.prog).get("update")
+        chk.ob(rule, u is not None and canon(u) == canon(("param", "update")), CORE, host, "delta-update-flag:%s:%s" % (mode, e.name),
+               "the caller's update flag is passed on", where=e.where)
     if pid in ("C06", "C17"):
         zw = ("zero", sym._abs_norm(sym.to_rat(weight)))
         rets = [e for e in S.events if e.kind == "return" and e.chain == (fi.qual,)]
